@@ -43,6 +43,7 @@ import (
 	"testing/synctest"
 	"time"
 
+	"github.com/twmb/franz-go/pkg/kerr"
 	"github.com/twmb/franz-go/pkg/kfake"
 	"github.com/twmb/franz-go/pkg/kgo"
 	"github.com/twmb/franz-go/pkg/kmsg"
@@ -110,13 +111,57 @@ func runCls(t *testing.T, tk []string) string {
 	for i := range ports {
 		ports[i] = base + i
 	}
-	cluster, err := kfake.NewCluster(kfake.NumBrokers(brokers), kfake.Ports(ports...), kfake.SeedTopics(3, "t"),
-		kfake.ListenFn(net_.ListenFn))
+	// group variants of the consuming scenarios: KIP-848 members (a third; half of them on a one-partition topic, so that
+	// one of the two members owns nothing), and group errors injected into heartbeats (half): the member is told it
+	// is fenced / unknown / in an illegal generation, abandons or loses its assignment and rejoins -- Close comes later
+	next848 := (kind == 1 || kind == 2) && seed%3 == 0
+	grpFault := (kind == 1 || kind == 2) && seed%2 == 0
+	nparts := int32(3)
+	if next848 && seed%6 == 0 {
+		nparts = 1
+	}
+	copts := []kfake.Opt{kfake.NumBrokers(brokers), kfake.Ports(ports...), kfake.SeedTopics(nparts, "t"), kfake.ListenFn(net_.ListenFn)}
+	if next848 {
+		// the KIP-848 heartbeat interval is the broker's (default 5 s): made short, so that regular heartbeats happen before Close
+		copts = append(copts, kfake.BrokerConfigs(map[string]string{"group.consumer.heartbeat.interval.ms": "100"}))
+	}
+	cluster, err := kfake.NewCluster(copts...)
 	if err != nil {
 		return "ERR:cluster:" + err.Error()
 	}
 	defer cluster.Close()
 	rng := hx.NewRng(seed)
+	if grpFault {
+		var gmu sync.Mutex
+		grng := hx.NewRng(seed ^ 0x6772)
+		inject := func(kreq kmsg.Request) (kmsg.Response, error, bool) {
+			cluster.KeepControl()
+			gmu.Lock()
+			hit, pick := grng.Chance(12), grng.Intn(2)
+			gmu.Unlock()
+			if !hit {
+				return nil, nil, false
+			}
+			switch r := kreq.(type) {
+			case *kmsg.ConsumerGroupHeartbeatRequest:
+				if r.MemberEpoch <= 0 {
+					return nil, nil, false // joins and leaves are left alone
+				}
+				resp := r.ResponseKind().(*kmsg.ConsumerGroupHeartbeatResponse)
+				resp.ErrorCode = []int16{kerr.FencedMemberEpoch.Code, kerr.UnknownMemberID.Code}[pick]
+				hx.St.Inc(fmt.Sprintf("fault.cls.group-error.%d", resp.ErrorCode))
+				return resp, nil, true
+			case *kmsg.HeartbeatRequest:
+				resp := r.ResponseKind().(*kmsg.HeartbeatResponse)
+				resp.ErrorCode = []int16{kerr.IllegalGeneration.Code, kerr.UnknownMemberID.Code}[pick]
+				hx.St.Inc(fmt.Sprintf("fault.cls.group-error.%d", resp.ErrorCode))
+				return resp, nil, true
+			}
+			return nil, nil, false
+		}
+		cluster.ControlKey(68, inject)
+		cluster.ControlKey(12, inject)
+	}
 	var slow atomic.Bool
 	if mode == 1 {
 		cluster.Control(func(kmsg.Request) (kmsg.Response, error, bool) {
@@ -143,7 +188,12 @@ func runCls(t *testing.T, tk []string) string {
 	}
 	ctx, cancel := context.WithCancel(context.Background())
 	defer cancel()
-	opts := []kgo.Opt{kgo.SeedBrokers(cluster.ListenAddrs()...), kgo.Dialer(dial),
+	gctx := context.Background()
+	if next848 {
+		gctx = context.WithValue(gctx, "opt_in_kafka_next_gen_balancer_beta", true) //nolint
+		hx.St.Inc("scen.cls.kip848")
+	}
+	opts := []kgo.Opt{kgo.WithContext(gctx), kgo.SeedBrokers(cluster.ListenAddrs()...), kgo.Dialer(dial),
 		kgo.RetryBackoffFn(func(int) time.Duration { return 20 * time.Millisecond }),
 		kgo.RecordPartitioner(kgo.ManualPartitioner()), kgo.ProducerLinger(time.Duration(rng.Intn(2)*10) * time.Millisecond)}
 	consuming := kind == 1 || kind == 2
@@ -263,7 +313,7 @@ func runCls(t *testing.T, tk []string) string {
 		go func() {
 			defer wg.Done()
 			time.Sleep(time.Duration(rng.Intn(600)) * time.Millisecond)
-			c2, err := kgo.NewClient(kgo.SeedBrokers(cluster.ListenAddrs()...), kgo.Dialer(net_.Stack.DialContext), kgo.ConsumerGroup("g"), kgo.ConsumeTopics("t"),
+			c2, err := kgo.NewClient(kgo.WithContext(gctx), kgo.SeedBrokers(cluster.ListenAddrs()...), kgo.Dialer(net_.Stack.DialContext), kgo.ConsumerGroup("g"), kgo.ConsumeTopics("t"),
 				kgo.FetchMaxWait(100*time.Millisecond), kgo.SessionTimeout(6*time.Second), kgo.HeartbeatInterval(300*time.Millisecond))
 			if err != nil {
 				return
